@@ -1,6 +1,7 @@
 import PySMT.Proofs.WalkerMore
 import PySMT.Proofs.WalkerInstSubst
 import PySMT.Proofs.TheoryHeapWalk
+import PySMT.Proofs.ManagerTables
 
 /-!
 # C14 — results do not depend on the environment's history
@@ -15,8 +16,18 @@ the outcome of a call is a function of the call alone.
 results are equal on the nose.  (In pySMT the simplifier iterates over Python sets of nodes, whose order depends
 on node ids and therefore on the history; the correspondence run compares modulo that order.)
 
-Not covered here: the aliasing behaviour of `TheoryOracle`'s mutable `Theory` objects (tested by the correspondence
-run by comparing against a fresh environment).
+Further down: the heap model of `TheoryOracle` (mutable `Theory` objects behind the memo: `theory_memo_ok`,
+`theory_no_alias`, `theory_never_mutated`, `get_theory_indep`, `get_logic_indep`), the one-shot substituter used
+with different maps in a row (`substitute_maps_indep_partial`), the `Int` / `Real` / `String` constant caches, and the
+symbol table -- the place where the property is FALSE BY DESIGN: `symbol_history_iff` says exactly when `Symbol(n, τ)`
+depends on the history (an earlier call bound `n` to another type).
+
+Not covered: callbacks are pure functions of `(node, results of the children)` -- the real ones also read other
+services of the environment (`walk_times` calls `get_free_variables`) and create nodes; a combined model of all the
+objects of an environment is not built (`history_indep_partial`); the heap model of `TheoryOracle` is a direct
+memoised recursion, not proved to be what `Walker.walk` computes with a state-passing callback (the value level is:
+`theoryOf` is a bottom-up function).  A client that mutates a `Theory` it got from `get_theory` is outside the model;
+the code now hands out a copy (fix f034130).
 -/
 
 namespace PySMT.C14
@@ -82,16 +93,16 @@ theorem const_cache_indep (v : PyNum) (c : ConstCache) (hc : CacheOK c) :
 theorem fold_walk_history_indep {M R E : Type} [MemoLike M Term R] [LawfulMemo M Term R]
     (g : Term → List R → R) (F : Term → R) (hF : ∀ t, F t = g t (t.args.map F))
     (inval shortcut : Bool) (fuel : Nat) (t : Term) (s : WState M Term) (hi : FoldIdle (fun _ => false) F s)
-    (hfuel : 2 * t.size ≤ fuel) :
+    (hfuel : dagBound t ≤ fuel) :
     (walk termGraph (fun _ => false) (fun _ => cbOf (E := E) g) inval shortcut fuel t s).1 = .ok (F t) ∧
     FoldIdle (fun _ => false) F (walk termGraph (fun _ => false) (fun _ => cbOf (E := E) g) inval shortcut fuel t s).2 :=
   let h := Walker.walk_eq_fold g F hF inval shortcut fuel t s hi hfuel
-  ⟨h.1, h.2.2⟩
+  ⟨h.1, h.2.2.2⟩
 
 /-- `FreeVarsOracle`: the result is `fvO t` after any history. -/
 theorem freevars_walk_eq {M E : Type} [MemoLike M Term (List Sym)] [LawfulMemo M Term (List Sym)]
     (inval shortcut : Bool) (fuel : Nat) (t : Term) (s : WState M Term)
-    (hi : FoldIdle (fun _ => false) Oracles.fvO s) (hfuel : 2 * t.size ≤ fuel) :
+    (hi : FoldIdle (fun _ => false) Oracles.fvO s) (hfuel : dagBound t ≤ fuel) :
     (walk termGraph (fun _ => false)
       (fun _ => cbOf (E := E) (fun n rs => Oracles.fvNode n.op n.payload rs)) inval shortcut fuel t s).1
       = .ok (Oracles.fvO t) :=
@@ -117,14 +128,71 @@ theorem size_walk_eq_tagged {M E : Type} [MemoLike M (NatMeasure × Term) Nat] [
 theorem substitute_walk_eq_partial {M E : Type} [MemoLike M Term Term] [LawfulMemo M Term Term]
     (ms : Bool) (h : Subst.FnHandler) (σ : Subst.TMap) (inval shortcut : Bool) (fuel : Nat) (t : Term)
     (s : WState M Term) (hi : FoldIdle (fun n => n.op.isQuantifier) (Subst.substG ms h σ) s)
-    (hfuel : 2 * t.size ≤ fuel) :
+    (hfuel : dagBound t ≤ fuel) :
     let r := walk termGraph (fun n => n.op.isQuantifier) (fun _ => cbOf (E := E) (substCb ms h σ))
                inval shortcut fuel t s
-    r.1 = .ok (Subst.substG ms h σ t) ∧ FoldIdle (fun n => n.op.isQuantifier) (Subst.substG ms h σ) r.2 :=
+    r.1 = .ok (Subst.substG ms h σ t) ∧ (r.2.iters ≤ s.iters + dagBound t ∧ r.2.pushes ≤ s.pushes + dagBound t) ∧
+    FoldIdle (fun n => n.op.isQuantifier) (Subst.substG ms h σ) r.2 :=
   Walker.substitute_walk_eq_partial ms h σ inval shortcut fuel t s hi hfuel
 
 example (σ : Subst.TMap) : FoldIdle (fun n => n.op.isQuantifier) (Subst.substG false Subst.noInterp σ)
     (WState.init : WState (AMemo Term Term) Term) := foldIdle_init _ _
+
+/-! ### Change of callback on one walker object; the manager's tables -/
+
+/-- After a call on a one-shot walker (`invalidate_memoization = True`: the substituter) that was `Idle` for the
+    callbacks `f0`, the walker is `Idle` for EVERY other callback `f1` -- whatever the call's own callbacks `f` were
+    and whatever its outcome. -/
+theorem walk_idle_any_callback (g : Graph N) (d : N → Bool) (f : List N → N → List R → Except E R)
+    (f0 f1 : N → List R → Except E R) (shortcut : Bool) (fuel : Nat) (n : N) (s : WState M N)
+    (hi : Idle g d f0 s) (hmiss : (if shortcut then look s.memo n else none) = none) :
+    Idle g d f1 (walk g d f true shortcut fuel n s).2 :=
+  Walker.walk_idle_any_callback g d f f0 f1 shortcut fuel n s hi hmiss
+
+/-- Calls with changing callbacks on a one-shot walker: each returns the specification of its own callback. -/
+theorem walks_changing_callbacks (g : Graph N) (d : N → Bool) (shortcut : Bool) (fuel : Nat) (V : List N)
+    (hfuel : 2 * cost g V + 2 ≤ fuel) (qs : List ((N → List R → Except E R) × N))
+    (hV : ∀ q ∈ qs, Covers g d q.2 V) (s : WState M N) (hb : Blank s) :
+    (walksF g d true shortcut fuel (qs.map (fun q => ((fun _ => q.1 : List N → N → List R → Except E R), q.2))) s).1
+      = qs.map (fun q => ofSpec (spec g d q.1 q.2)) :=
+  (Walker.walksF_spec g d shortcut fuel V hfuel qs hV s hb).1
+
+/-- The environment's substituter used with maps σ₁, σ₂, … in a row: the i-th call returns `substG … σᵢ tᵢ`.
+    `_partial` as `substitute_walk_eq_partial` (the nested sub-substituter at quantifiers is the callback). -/
+theorem substitute_maps_indep_partial {M E : Type} [MemoLike M Term Term] [LawfulMemo M Term Term]
+    (ms : Bool) (h : Subst.FnHandler) (shortcut : Bool) (fuel : Nat) (qs : List (Subst.TMap × Term))
+    (hfuel : ∀ q ∈ qs, dagBound q.2 ≤ fuel) (s : WState M Term) (hb : Blank s) :
+    (walksF termGraph (fun n => n.op.isQuantifier) true shortcut fuel
+        (qs.map (fun q => ((fun _ => cbOf (E := E) (substCb ms h q.1)), q.2))) s).1
+      = qs.map (fun q => WOut.ok (Subst.substG ms h q.1 q.2)) :=
+  (Walker.substitute_maps_indep_partial ms h shortcut fuel qs hfuel s hb).1
+
+/-- `Real()` and `String()` after the F07 repair: as `const_cache_indep` for `Int()`. -/
+theorem real_cache_indep (v : ManagerTables.PyRealArg) (c : List (Rat × Rat)) (hc : ManagerTables.CacheOK c) :
+    (ManagerTables.mkReal v c).1 = (ManagerTables.mkReal v []).1 ∧ ManagerTables.CacheOK (ManagerTables.mkReal v c).2 :=
+  ManagerTables.mkConst_indep _ v c hc
+
+theorem string_cache_indep (v : ManagerTables.PyStrArg) (c : List (String × String)) (hc : ManagerTables.CacheOK c) :
+    (ManagerTables.mkString v c).1 = (ManagerTables.mkString v []).1 ∧
+    ManagerTables.CacheOK (ManagerTables.mkString v c).2 :=
+  ManagerTables.mkConst_indep _ v c hc
+
+/-- **Where C14 is false by design.**  `Symbol(n, τ)` after a history `h` of symbol requests returns the symbol when `n`
+    was never requested or was first requested with type `τ`, and raises `PysmtTypeError` when it was first requested
+    with another type; in a fresh manager it always returns the symbol.  Hence: the call is independent of the
+    history if and only if no earlier call bound the name to another type. -/
+theorem symbol_history_iff {T : Type} [DecidableEq T] (h : List (String × T)) (n : String) (τ : T) :
+    (ManagerTables.getOrCreate n τ (ManagerTables.runSyms h [])).1
+        = (ManagerTables.getOrCreate n τ ([] : ManagerTables.SymTab T)).1 ↔
+      (ManagerTables.firstType h n = none ∨ ManagerTables.firstType h n = some τ) :=
+  ManagerTables.symbol_history_iff h n τ
+
+-- non-vacuity: a blank walker; both sides of `symbol_history_iff` occur
+example : Blank (WState.init : WState (AMemo Term Term) Term) := blank_init
+example : (ManagerTables.getOrCreate "w" 1 (ManagerTables.runSyms [("w", 0)] ([] : ManagerTables.SymTab Nat))).1 = .error () := rfl
+example : (ManagerTables.getOrCreate "w" 0 (ManagerTables.runSyms [("w", 0), ("v", 1)] ([] : ManagerTables.SymTab Nat))).1
+    = .ok ("w", 0) := rfl
+example : (ManagerTables.mkReal (.bool true) (ManagerTables.mkReal (.int 1) []).2).1 = .error () := rfl
 
 /-! ### `TheoryOracle`: mutable `Theory` objects behind a long-lived memo (heap model `Impl/TheoryHeap.lean`)
 
